@@ -679,7 +679,7 @@ func outcomeErrClassC04(o string) string {
 
 func init() {
 	props["C04"] = func(x *Ctx) {
-		x.rule = "each case: fresh server (accounts by1, by2, alice [1..72-byte password], root [all privileges], guest present in 80% [sometimes with a password], in 60% an account \"legacy\" whose hand-written file holds a Password that is not a bcrypt hash [empty, plaintext, truncated, unknown version/cost]); in 18% an administrator first renames alice through the real HandleUpdateUser (password kept / changed / removed) and the OLD login is then tried; in 15% of the not-to-be-logged-in cases every Write after the 8-byte handshake reply fails while login and requests arrive in one segment; two bystanders logged in over the wire; a pre-login stream = handshake (valid / other version / one bit off in the ids / one bit off in the version / short / random) + first transaction (login alice|root|empty=guest|unknown or case-changed login; password correct / random / strict prefix / extended / case-changed / empty / absent / one bit off / another account's; type 107 or other; 8% byte-mutated) + 0..5 destructive transactions (delete file/folder, new account, board post, chat, new folder, delete account, broadcast, disconnect+ban, news category, instant message); 3% from a banned address. non-trivial = valid handshake, not banned, first transaction present (the credential check decides); distinct = distinct (stream, credential kind, guest present). batch-edit-login: fresh server with accounts alice/bob/carol/dave (random 1..30-byte passwords); an administrator sends ONE TranUpdateUser over the wire with 1..5 records drawn from password change / keep ({0}) / password removal / deletion / creation (erin, frank) / rename (password kept, changed, removed) — 4% of the batches contain a record that must stop the handler (deletion of an absent account, rename onto an existing login) —, sub-fields of every record shuffled; then up to 7 connections present, for the accounts the batch names, the password the last edit set, the password held before the batch, a password another record of the same batch set, or nothing (plus an untouched account); verdict by the property's condition (exists now and password = current password) for acknowledged batches, table and decisions compared with LoginHistory.applyBatch / Session.run; distinct = distinct (records, wire bytes). ban-reload-gate: bans entered through BanFile.Add (permanent / until +1..5 h / expired), the operator's new list (some entries kept, some dropped, some added) served through a FIFO in place of Banlist.yaml so that the reload sequence (message board, BanFile.Load, threaded news, agreement) waits inside the file read; connections with valid guest credentials from kept / dropped / added / never-listed addresses arrive while it waits and again after it finished; verdict: an address refused before and after is never served, after the reload the gate follows the new list exactly; decisions compared with BanReload.run"
+		x.rule = "each case: fresh server (accounts by1, by2, alice [1..72-byte password], root [all privileges], guest present in 80% [sometimes with a password], in 60% an account \"legacy\" whose hand-written file holds a Password that is not a bcrypt hash [empty, plaintext, truncated, unknown version/cost]); in 18% an administrator first renames alice through the real HandleUpdateUser (password kept / changed / removed) and the OLD login is then tried; in 15% of the not-to-be-logged-in cases every Write after the 8-byte handshake reply fails while login and requests arrive in one segment; two bystanders logged in over the wire; a pre-login stream = handshake (valid / other version / one bit off in the ids / one bit off in the version / short / random) + first transaction (login alice|root|empty=guest|unknown or case-changed login; password correct / random / strict prefix / extended / case-changed / empty / absent / one bit off / another account's; type 107 or other; 8% byte-mutated) + 0..5 destructive transactions (delete file/folder, new account, board post, chat, new folder, delete account, broadcast, disconnect+ban, news category, instant message); 3% from a banned address. non-trivial = valid handshake, not banned, first transaction present (the credential check decides); distinct = distinct (stream, credential kind, guest present). batch-edit-login: fresh server with accounts alice/bob/carol/dave (random 1..30-byte passwords); an administrator sends ONE TranUpdateUser over the wire with 1..5 records drawn from password change / keep ({0}) / password removal / deletion / creation (erin, frank) / rename (password kept, changed, removed) — 4% of the batches contain a record that must stop the handler (deletion of an absent account, rename onto an existing login) —, sub-fields of every record shuffled; then up to 7 connections present, for the accounts the batch names, the password the last edit set, the password held before the batch, a password another record of the same batch set, or nothing (plus an untouched account); verdict by the property's condition (exists now and password = current password) for acknowledged batches, table and decisions compared with LoginHistory.applyBatch / Session.run; distinct = distinct (records, wire bytes). ban-reload-gate: bans entered through BanFile.Add (permanent / until +1..5 h / expired), the operator's new list (some entries kept, some dropped, some added) served through a FIFO in place of Banlist.yaml so that the reload sequence (message board, BanFile.Load, threaded news, agreement) waits inside the file read; connections with valid guest credentials from kept / dropped / added / never-listed addresses arrive while it waits and again after it finished; verdict: an address refused before and after is never served, after the reload the gate follows the new list exactly; decisions compared with BanReload.run. set-user-login: 1..4 single-account edits sent one after the other by an administrator (TranSetUser on existing / absent accounts, single-record TranUpdateUser: password change, keep, removal, rename) with password fields from a wire-level pool (first wire byte 0 of lengths 2, 8, 20, others; zero byte inside; the one-byte marker {0}; absent; empty; one byte; high bytes; text), then up to 6 login attempts per history presenting what the last acknowledged edit set / what was held before / what some edit carried, judged logged in iff the account exists and the password verifies (bcrypt by the harness) against the value last set; acknowledgements and table compared with LoginHistory.applyEdits; distinct = distinct edit history"
 		x.assume = []string{
 			"bcrypt: verify(hash(p), q) iff p = q for passwords of at most 72 bytes without NUL bytes (the oracle's verify is equality on the stored password bytes)",
 			"for a stream expected to log in, the bytes after the login are delivered once the login's own transactions were written (the server drops queued replies when the connection ends)",
@@ -690,6 +690,16 @@ func init() {
 		x.Add(&Family{Name: "unauth-gate", Quick: 2600, Thor: 30000, Run: c04Family})
 		x.Add(&Family{Name: "batch-edit-login", Quick: 260, Thor: 4000, Run: c04BatchEditFamily})
 		x.Add(&Family{Name: "ban-reload-gate", Quick: 60, Thor: 600, Run: c04BanReloadFamily})
+		x.Add(&Family{Name: "set-user-login", Quick: 240, Thor: 4000, Run: c04SetUserFamily})
+		if only := os.Getenv("VERIF_ONLY_FAMILY"); only != "" { // dev aid: run one family
+			var keep []*Family
+			for _, f := range x.families {
+				if f.Name == only {
+					keep = append(keep, f)
+				}
+			}
+			x.families = keep
+		}
 	}
 }
 
